@@ -11,7 +11,7 @@ def run(tier):
     wd = workdir("c10")
     tf = os.path.join(wd, "table.json")
     json.dump(table, open(tf, "w"))
-    for s in range(6 if tier == "thorough" else 1):
+    for s in range(20 if tier == "thorough" else 1):
         o = os.path.join(wd, "out.json")
         conform("stable", ["pwstr", tf, o, ck.seed + s, (2 if tier == "thorough" else 1) if s == 0 else 0], timeout=3000)
         ck.add_report(json.load(open(o)))
